@@ -628,7 +628,7 @@ def gr_mtdnFold (qs : List Modulus) (invs : List MulOperand) (NT : Nat → List 
 
 theorem gr_mtdn_loop (qs : List Modulus) (invs : List MulOperand) (NT : Nat → List Nat → List Nat) (lastv s n : Nat) (neg : List Nat)
     (hqs : qs.length = s) (hinv : s - 1 ≤ invs.length) (hq : ∀ i, i < s → (qs.getD i gr_dflt).WF) (hsn : s * n < 2^64) (hs64 : s < 2^64)
-    (hlv : lastv < 2^64) (hneg : neg.length = n) (hnegw : ∀ x ∈ neg, x < 2^64) (hNT : ∀ i x, i < s - 1 → x.length = n → (NT i x).length = n) :
+    (hlv : lastv < 2^64) (hneg : neg.length = n) (hnegw : ∀ x ∈ neg, x < 2^64) (hNT : ∀ i x, i < s - 1 → x.length = n → (∀ y ∈ x, y < 2 * (qs.getD i gr_dflt).value) → (NT i x).length = n) :
     ∀ k i (cs : List (List Nat)) (temp : List Nat), i + k = s - 1 → cs.length = s → (∀ c ∈ cs, c.length = n) → temp.length = n →
       (∀ x ∈ cs.getD (s-1) [], x < 2^64) →
       GenR.mod_t_and_divide_q_last_ntt_inplace_loop1 s lastv n neg qs (fun i x => .ok (NT i x)) invs k i cs.flatten temp
@@ -662,7 +662,14 @@ theorem gr_mtdn_loop (qs : List Modulus) (invs : List MulOperand) (NT : Nat → 
     obtain ⟨d1, hd1⟩ : ∃ d1, d1 = (List.range' 0 n).map (fun j => d0.getD j 0 + (cs.getD (s-1) []).getD j 0 % (qs.getD i gr_dflt).value) := ⟨_, rfl⟩
     rw [← hd1] at e4
     have hd1len : d1.length = n := by rw [hd1, List.length_map, List.length_range']
-    have hd2len := hNT i d1 (by omega) hd1len
+    have hd1b : ∀ y ∈ d1, y < 2 * (qs.getD i gr_dflt).value := by
+      intro y hy
+      rw [hd1] at hy
+      obtain ⟨j, -, rfl⟩ := List.mem_map.mp hy
+      have h1 := gr_getD_mem_lt hd0b hb0 j
+      have h2 := Nat.mod_lt ((cs.getD (s-1) []).getD j 0) hb0
+      omega
+    have hd2len := hNT i d1 (by omega) hd1len hd1b
     have e5 := gr_mtdn_loop3 cs s n i (qs.getD i gr_dflt) (NT i d1) (by omega) hsn hcs hn hd2len
     obtain ⟨d, hd⟩ : ∃ d, d = (List.range' 0 n).map (fun j => subModV ((cs.getD i []).getD j 0) ((NT i d1).getD j 0) (qs.getD i gr_dflt)) := ⟨_, rfl⟩
     rw [← hd] at e5
@@ -760,7 +767,7 @@ theorem gr_mtdn_list (qs : List Modulus) (invs : List MulOperand) (t : Modulus) 
     (hs : 1 ≤ s) (hqs : qs.length = s) (hinv : s - 1 ≤ invs.length) (hq : ∀ i, i < s → (qs.getD i gr_dflt).WF) (ht : t.WF) (hinvt : invt < 2^64)
     (hsn : s * n < 2^64) (hs64 : s < 2^64) (hcs : cs.length = s) (hn : ∀ c ∈ cs, c.length = n)
     (hIT : (IT (s-1) (cs.getD (s-1) [])).length = n) (hITw : ∀ x ∈ IT (s-1) (cs.getD (s-1) []), x < 2^64)
-    (hNT : ∀ i x, i < s - 1 → x.length = n → (NT i x).length = n) :
+    (hNT : ∀ i x, i < s - 1 → x.length = n → (∀ y ∈ x, y < 2 * (qs.getD i gr_dflt).value) → (NT i x).length = n) :
     GenR.mod_t_and_divide_q_last_ntt_inplace cs.flatten s qs n invs t invt (fun i x => .ok (IT i x)) (fun i x => .ok (NT i x)) =
       .ok ((List.range' 0 (s-1)).map (fun i => gr_mtdnComp (qs.getD i gr_dflt) (qs.getD (s-1) gr_dflt).value (invs.getD i default) (NT i)
               (gr_negList t invt (IT (s-1) (cs.getD (s-1) []))) (IT (s-1) (cs.getD (s-1) [])) (cs.getD i []))
